@@ -822,7 +822,7 @@ func goMatch(p, n string) string {
 
 func sectionPathMatch(rng *vh.Rng) {
 	sec := res.Section("pathmatch", "unit-correspondence",
-		"path.Match(pattern, name) vs the Lean model: exhaustive patterns of length 0..3 over {* ? [ ] ^ - \\ / a b} x names of length 0..2 over {a b / -} and the probe name abc; seeded random patterns (<=7 pieces incl. classes, escapes, é, 0xff) x names; search: no pattern accepted on the probe name abc reports ErrBadPattern on another name. non-trivial = pattern with a metacharacter, distinct by (pattern, name)")
+		"path.Match(pattern, name) vs the Lean model: exhaustive patterns of length 0..3 over {* ? [ ] ^ - \\ / a b} x names of length 0..2 over {a b / -} and the probe name abc; seeded random patterns (<=7 pieces incl. classes, escapes, é, 0xff) x names; search: no pattern accepted on the probe name abc reports ErrBadPattern on another name; every case also against the documented pattern language (SPEC PathSpec.specMatch: must agree without '*', counted with '*'). non-trivial = pattern with a metacharacter, distinct by (pattern, name)")
 	type cs struct{ p, n string }
 	var cases []cs
 	pa := []string{"*", "?", "[", "]", "^", "-", "\\", "/", "a", "b"}
@@ -846,6 +846,9 @@ func sectionPathMatch(rng *vh.Rng) {
 			cases = append(cases, cs{p, n})
 		}
 	}
+	// the two kernel-checked counterexamples to "path.Match = documented language" with '*' (Props.C05.cex_star_greedy_*): kept in
+	// the run so that the model comparison covers them and the difference is counted every time
+	cases = append(cases, cs{"**[^a]*", "*x*]/"}, cs{"*?*\xac", "\xe2\x82\xac"})
 	rp := []string{"*", "*", "?", "[", "]", "^", "-", "\\", "/", "a", "b", "c", "é", "\xff", "[a-c]", "[^a]", "ab", "[a-", "\\*", "[é-ü]"}
 	rn := []string{"a", "b", "c", "/", "é", "\xff", "x", "-", "]", "*", "ab", "ü"}
 	nr := 30000
@@ -872,9 +875,30 @@ func sectionPathMatch(rng *vh.Rng) {
 		lines[i] = "match " + vh.HxS(c.p) + " " + vh.HxS(c.n)
 	}
 	outs := batchParallel(lines)
+	slines := make([]string, len(cases))
+	for i, c := range cases {
+		slines[i] = "specmatch " + vh.HxS(c.p) + " " + vh.HxS(c.n)
+	}
+	specs := batchParallel(slines)
 	probeOk := map[string]bool{}
 	for i, c := range cases {
 		g := goMatch(c.p, c.n)
+		// SPEC = the documented pattern language (PathSpec): proved equal to the algorithm for patterns without '*'
+		// (pathMatch_eq_spec_noStar); with '*' the greedy algorithm is known to differ on inputs that split a multi-byte
+		// character (cex_star_greedy_splits_rune), so a difference there is only counted
+		if g != specs[i] {
+			if !strings.Contains(c.p, "*") {
+				res.SpecFail(vh.SpecFailure{Section: "pathmatch", Kind: "pattern-semantics", Input: map[string]string{"pattern": vh.HxS(c.p), "name": vh.HxS(c.n)},
+					Impl: g, Spec: specs[i], Model: outs[i], ImplEqModel: g == outs[i], What: "path.Match differs from the documented pattern language on a pattern without '*'"})
+			} else if utf8.ValidString(c.p) && utf8.ValidString(c.n) {
+				res.Dist(sec, "star-pattern-differs-from-spec-valid-utf8")
+				res.Note("pathmatch: star pattern %q on %q: path.Match=%s documented-language=%s (valid UTF-8; tested only)", c.p, c.n, g, specs[i])
+			} else {
+				res.Dist(sec, "star-pattern-differs-from-spec-invalid-utf8")
+			}
+		} else if strings.Contains(c.p, "*") {
+			res.Dist(sec, "star-pattern-agrees-with-spec")
+		}
 		key := ""
 		if strings.ContainsAny(c.p, "*?[\\") {
 			key = c.p + "\x00" + c.n
@@ -1746,7 +1770,11 @@ func replay(path string) {
 		json.Unmarshal(r.Input, &in)
 		p, n := string(vh.UnHx(in["pattern"])), string(vh.UnHx(in["name"]))
 		outs, _ := vh.Batch(args.Driver, []string{"match " + vh.HxS(p) + " " + vh.HxS(n)})
-		fmt.Printf("path.Match(%q, %q): impl=%s model=%s probe(abc)=%s\n", p, n, goMatch(p, n), outs[0], goMatch(p, "abc"))
+		so, _ := vh.Batch(args.Driver, []string{"specmatch " + vh.HxS(p) + " " + vh.HxS(n)})
+		fmt.Printf("path.Match(%q, %q): impl=%s model=%s spec=%s probe(abc)=%s\n", p, n, goMatch(p, n), outs[0], so[0], goMatch(p, "abc"))
+		if !strings.Contains(p, "*") && goMatch(p, n) != so[0] {
+			res.SpecFail(vh.SpecFailure{Section: "pathmatch", Kind: "pattern-semantics", Input: in, Impl: goMatch(p, n), Spec: so[0], What: "path.Match differs from the documented pattern language on a pattern without '*'"})
+		}
 		if goMatch(p, n) != outs[0] {
 			res.Mismatch(vh.Mismatch{Section: "pathmatch", Function: "path.Match", Input: in, Impl: goMatch(p, n), Model: outs[0]})
 		}
